@@ -37,6 +37,9 @@ EDITS = [
  ("setu64.rs", "remove heap keeps an emptied bucket", r"if newa == key << s\.bits \{", "if newa == (key << s.bits) + 1 {"),
  ("setu64.rs", "remove heap count", r"(let newa = a\[idx\] & !\(1 << offset\);\s*)s\.sz -= 1;", r"\g<1>s.sz -= 2;"),
  ("setu64.rs", "remove big placeholder", r"(pub fn remove[\s\S]*?)let e = if e == 0 \{ s\.bits \} else \{ e \};", r"\g<1>let e = if e == 0 { e } else { e };"),
+ ("setu64.rs", "Tiny::contains gap", r"(fn contains\(mut self[\s\S]*?)e -= n \+ 1;", r"\g<1>e -= n;"),
+ ("setu64.rs", "Tiny::contains order test", r"(fn contains\(mut self[\s\S]*?)\} else if e < n \{", r"\g<1>} else if e <= n + 1 {"),
+ ("setu64.rs", "mask", r"(fn mask\(bits: usize\) -> u64 \{\s*)\(1 << bits\) - 1", r"\g<1>(1 << bits)"),
  ("setu64.rs", "BITSPLITS row", r"&\[25, 12, 12, 12\]", "&[26, 12, 12, 12]"),
  ("setu32.rs", "log_2 width", r"(fn log_2\(x: u32\)[\s\S]*?)num_bits::<u32>\(\) as u32 - x\.leading_zeros\(\)", r"\g<1>num_bits::<u32>() as u32 + 1 - x.leading_zeros()"),
  ("setu32.rs", "compute_array_bits large threshold", r"else if log_2\(mx\) > 62 \{", "else if log_2(mx) > 31 {"),
